@@ -227,10 +227,11 @@ def build_obligation(ob, bdir, witness=False, extra_defs=()):
     return out
 
 
-def cbmc_cmd(ob, binary, backend, witness_prop=None):
+def cbmc_cmd(ob, binary, backend, witness_prop=None, witness=False):
     d = ob.d
-    cmd = ["cbmc", binary, "--function", d["entry"], "--drop-unused-functions", "--stop-on-fail", "--trace",
-           "--verbosity", "8" if False else "6"]
+    cmd = ["cbmc", binary, "--function", d["entry"], "--drop-unused-functions", "--verbosity", "6"]
+    if not witness:
+        cmd += ["--stop-on-fail", "--trace"]
     cmd += d.get("checks", DEFAULT_CHECKS)
     if not d.get("malloc_may_fail", False):
         cmd += ["--no-malloc-may-fail"]
@@ -283,7 +284,7 @@ def run_solver(ob, binary, logbase, witness=False):
     procs = []
 
     def one(be):
-        cmd = cbmc_cmd(ob, binary, be)
+        cmd = cbmc_cmd(ob, binary, be, witness=bool(wprops) and len(wprops) > 1)
         if wprops:
             for w in wprops:
                 cmd += ["--property", w]
@@ -293,6 +294,12 @@ def run_solver(ob, binary, logbase, witness=False):
                 return
             rc, out, wall, to, rss = sh(cmd, timeout=timeout, mem_gb=mem, out_path=logp, procs=procs)
         r = parse_cbmc(out)
+        if wprops and r["verdict"] in ("FAIL", "HOLDS"):
+            # every reachability witness must be violated (each marks a branch the obligation claims to cover)
+            ok_w = [l for l in out.splitlines() if "WITNESS" in l and l.rstrip().endswith(": SUCCESS")]
+            if ok_w:
+                r["verdict"] = "HOLDS"
+                r["reason"] = "unreachable witness: " + "; ".join(x.strip()[:80] for x in ok_w[:3])
         r.update({"backend": be, "wall_s": round(wall, 2), "rss_mb": rss // 1024, "log": logp,
                   "cmd": " ".join(cmd)})
         if to:
@@ -410,7 +417,7 @@ def run_obligation(ob, bdir, logdir):
         if rec["verdict"] == "HOLDS":
             if w["verdict"] == "HOLDS":
                 rec["verdict"] = "INCONCLUSIVE"
-                rec["reason"] = "vacuous: WITNESS assert(0) unreachable under the harness assumptions"
+                rec["reason"] = "vacuous: a WITNESS assert(0) is unreachable under the harness assumptions/bounds (%s)" % w.get("reason", "")
             elif w["verdict"] != "FAIL":
                 rec["verdict"] = "INCONCLUSIVE"
                 rec["reason"] = "witness twin undecided: " + w.get("reason", "")
